@@ -218,7 +218,10 @@ class ReadRoles:
         self.role = {}        # effect id -> set of role strings
         self.node_atom = {}   # id(hir node) -> effect id
         self.buf_of = {}      # effect id of a byte run -> lid of the buffer local it fills
+        self.arr_of = {}      # lid of a fixed-size array local filled by read_*_into -> effect ids, element order
         for x in LY.walk(L):
+            if x["n"] == "atom" and x.get("arr") and x.get("dir") == "r":
+                self.arr_of.setdefault(x["arr"][0], []).append(x["id"])
             if "node" in x and "id" in x and x.get("dir", "r") == "r":
                 self.node_atom[x["node"]] = x["id"]
             if x["n"] == "bytes" and x.get("dir") == "r":
@@ -310,6 +313,14 @@ class ReadRoles:
 
     def bind_pat(self, pat, init):
         k = pat.get("k")
+        src_ = hirq.strip_wrappers(init) if isinstance(init, dict) else {}
+        if k == "slice" and pat.get("mid") is None and src_.get("k") == "path" and src_.get("res") == "local" and src_.get("lid") in self.arr_of \
+                and len(pat.get("before", [])) + len(pat.get("after", [])) == len(self.arr_of[src_["lid"]]):
+            # `let [a, b, c] = buf;` after `read_*_into(&mut buf)`: element i is read i
+            for sp, eid in zip(list(pat.get("before", [])) + list(pat.get("after", [])), self.arr_of[src_["lid"]]):
+                for nm, lid in hirq.pat_bindings(sp):
+                    self.add(lid, nm, {eid: 0})
+            return
         if k == "bind":
             self.add(pat["lid"], pat["name"], self.atoms_in(init))
         elif k == "tuple":
@@ -360,6 +371,8 @@ class ReadRoles:
             # byte runs fill their buffer local
             for eid, lid in self.buf_of.items():
                 self.bind[lid] = _dmin(self.bind.get(lid, {}), {eid: 0})
+            for lid, eids in self.arr_of.items():
+                self.bind[lid] = _dmin(self.bind.get(lid, {}), {eid: 0 for eid in eids})
 
     def fields(self):
         """struct literals of local ADTs anywhere in the function: field name <- effects reaching its expression"""
@@ -668,6 +681,15 @@ class Flattener:
         elif n == "rep":
             body = []
             if self.side == "w":
+                # `for v in [a, b, c] { write(v) }` (also `[[..], [..]].iter().flatten()`): a loop over an array literal
+                # is its body once per element, in order
+                elems = literal_elements(subst_expr(subst_expr(L["iter"], subst), self.lets))
+                if elems is not None and L["pat"].get("k") == "bind":
+                    for el in elems:
+                        sub_i = dict(subst or {})
+                        sub_i[L["pat"]["name"]] = el
+                        self.flat(L["body"], A, out, sub_i)
+                    return
                 it0 = subst_expr(subst_expr(L["iter"], subst), self.lets)
                 coll = rep_count_role(self.fx, it0)
                 coll = coll[4:-1] if coll.startswith("len(") else None
@@ -741,6 +763,32 @@ def only_exit(L):
 
 def has_effects(L):
     return any(x["n"] not in ("seq", "let", "ret") for x in LY.walk(L))
+
+
+def literal_elements(it):
+    """elements, in iteration order, of `<array literal>[.iter() | .into_iter() | .copied() | .cloned() | .flatten()]*`, else None"""
+    flat_n = 0
+    e = it
+    for _ in range(8):
+        e = hirq.strip_wrappers(e)
+        if e.get("k") == "mcall" and e["m"] in ("iter", "into_iter", "copied", "cloned", "flatten") and not e.get("args"):
+            flat_n += 1 if e["m"] == "flatten" else 0
+            e = e["recv"]
+            continue
+        break
+    e = hirq.strip_wrappers(e)
+    if e.get("k") != "array":
+        return None
+    elems = list(e["es"])
+    for _ in range(flat_n):
+        nxt = []
+        for x in elems:
+            x = hirq.strip_wrappers(x)
+            if x.get("k") != "array":
+                return None
+            nxt.extend(x["es"])
+        elems = nxt
+    return elems
 
 
 def rep_count_role(fx, it):
